@@ -29,6 +29,12 @@ THEOREMS = ["JanetModel.Props.C03." + t for t in (
     "tuple_by_content", "struct_by_slots", "ref_by_identity", "symbol_identity_iff_bytes",
     "struct_put_capacity", "struct_layout_canonical_partial", "struct_layout_canonical_partial_cluster",
     "symcache_unique", "symcache_same_symbol", "struct_layout_canonical", "struct_layout_canonical_general", "struct_put_existing_key", "struct_by_content",
+    # session 3: insertion sequences with duplicate keys
+    "struct_by_final_map", "struct_layout_canonical_dups", "struct_last_value_wins", "struct_by_map_content",
+    "struct_flatten_first_value_wins", "struct_put_extra_dropped_witness",
+    # session 3: NaN inside the model type; regenerated guards of janet_struct_put_ext / janet_table_put
+    "string_compare_loop_is_lex", "string_equal_loop_is_byte_equality",
+    "laws_on_nan_free_values", "nan_breaks_the_laws", "struct_put_ignores_nan_key", "struct_by_final_map_nan", "struct_put_guards_tie",
 )]
 ENV = dict(os.environ, ASAN_OPTIONS="detect_leaks=0:abort_on_error=0", UBSAN_OPTIONS="print_stacktrace=1")
 HARNESS_SRC = os.path.join(VERIF, "harness/C03/pool.c")
@@ -394,7 +400,9 @@ def run(ctx, scripts=None):
                                       what="compare of numbers %r and %r gives %s, IEEE order says %s" % (a, b, row[j], wantc))
         # ---- (D) correspondence with the Lean model
         if exe:
-            ids = [i for i in range(n) if pr.meta[i].get("model") == "1" and not nan[i]]
+            # NaN is part of the model type (F64 = all 64-bit patterns, IEEE == / <): values holding NaN go through the model too
+            ids = [i for i in range(n) if pr.meta[i].get("model") == "1"]
+            tot["nan_values_in_model"] = tot.get("nan_values_in_model", 0) + sum(1 for i in ids if nan[i])
             pos = {i: p for p, i in enumerate(ids)}
             lines = ["val %d %s" % (pos[i], " ".join(pr.vals[i])) for i in ids] + ["row %d" % pos[i] for i in ids]
             # struct layout: rebuild every distinct struct from its occupied slots in several insertion orders
@@ -416,7 +424,7 @@ def run(ctx, scripts=None):
                 for o in orders:
                     lay_cases.append((i, expect, "structof %d %d %s %s" % (len(o), len(o), " ".join(show_term(a) + " " + show_term(b) for a, b in o),
                                                                            show_term(t[2]) if t[2] is not None else "nil")))
-                if occ:
+                if occ and not nan[i]:   # (a key holding NaN is not `=` to itself: the duplicate would be a second entry)
                     # announced count too large, a duplicate key first (overwritten later), a nil value and a nil key: janet_struct_end rebuilds
                     o = list(occ)
                     rng.shuffle(o)
@@ -425,6 +433,11 @@ def run(ctx, scripts=None):
                                                                            show_term(t[2]) if t[2] is not None else "nil")))
             lines += [c[2] for c in lay_cases]
             tot["layouts"] += len(lay_cases)
+            # string.c mirrored statement by statement (Value/StringLoop.lean): all ordered pairs of (up to 70) pool strings
+            strs = [i for i in ids if terms[i][0] == "s"][:70]
+            str_cases = [(i, j) for i in strs for j in strs]
+            lines += ["strcmp %s %s" % (terms[i][1].hex() or "-", terms[j][1].hex() or "-") for i, j in str_cases]
+            tot["string_loop_pairs"] = tot.get("string_loop_pairs", 0) + len(str_cases)
             mout = ctx.model(lines, exe=exe)
             tot["model_lines"] += len(lines)
             diffs = []
@@ -435,9 +448,16 @@ def run(ctx, scripts=None):
                     want = "h %s t" % pr.meta[i]["hash"]
                     if not mout[p].startswith(want + " "):
                         diffs.append({"op": "hash " + labels[i][1][:200], "value": describe(terms[i])[:200], "impl": pr.meta[i]["hash"], "model": mout[p]})
+                # janet_equals short-cuts on pointer identity (`t1 == t2`, `s1 == s2`); that is invisible on NaN-free values
+                # (= is reflexive there: laws_on_nan_free_values) but not when BOTH sides hold a NaN and share an object.  For
+                # such pairs only the janet_compare half of the character is compared (janet_compare has no short-cut).
+                cmp_only = {"L": "<", "G": ">", "Z": "="}
                 for p, i in enumerate(ids):
                     irow = "".join(pr.capi[i][j] for j in ids)
                     mrow = mout[len(ids) + p]
+                    if nan[i] and len(mrow) == len(irow):
+                        irow = "".join(cmp_only.get(ch, ch) if nan[j] else ch for ch, j in zip(irow, ids))
+                        mrow = "".join(cmp_only.get(ch, ch) if nan[j] else ch for ch, j in zip(mrow, ids))
                     if irow != mrow:
                         q = next((q for q in range(len(ids)) if q >= len(mrow) or irow[q] != mrow[q]), 0)
                         j = ids[q]
@@ -445,6 +465,9 @@ def run(ctx, scripts=None):
                 for c, o in zip(lay_cases, mout[2 * len(ids):]):
                     if c[1] != o:
                         diffs.append({"op": "struct layout", "value": info(c[0]), "insertion": c[2][:600], "impl": c[1][:600], "model": o[:600]})
+                for (i, j), o in zip(str_cases, mout[2 * len(ids) + len(lay_cases):]):
+                    if pr.capi[i][j] != o:
+                        diffs.append({"op": "janet_string_compare / janet_string_equal (statement-level mirror)", "a": info(i), "b": info(j), "impl": pr.capi[i][j], "model": o})
             tot["model_diffs"] += len(diffs)
             if diffs:
                 diffs_all += diffs[:5]
@@ -560,12 +583,68 @@ def run(ctx, scripts=None):
             diffs_all += ldiffs[:3]
             broken.append("correspondence model/impl on struct layout scenario: %d differing slot arrays, first %r" % (len(ldiffs), ldiffs[:1]))
             ctx.broken.append(broken[-1])
+    # ------------------------------------------------------------------ duplicate-key scenario (direct + model), session 3
+    dup_summary = None
+    ncases, ndmodel = (6000, 400) if quick else (80000, 3000)
+    if broken:
+        ncases *= 3
+    dseed = ctx.rng.fork("dups").next() % (1 << 62)
+    rc, out, err = run_cmd([hx, "dups", str(dseed), str(ncases), str(ndmodel)], timeout=3000, env=ENV)
+    out = out.decode(errors="replace")
+    dcases, cur = [], None
+    for l in out.splitlines():
+        t = l.split(" ")
+        if t[0] == "dcase":
+            cur = {"replace": int(t[1]), "count": int(t[2]), "under": t[4] == "1", "kvs": [], "ref": None}
+            dcases.append(cur)
+        elif t[0] == "dkv" and cur is not None:
+            cur["kvs"].append(" ".join(t[1:]))
+        elif t[0] == "dref" and cur is not None:
+            cur["ref"] = " ".join(t[1:])
+        elif l.startswith("summary dups"):
+            cut = t.index("mapsizes") if "mapsizes" in t else len(t)
+            dup_summary = dict(zip(t[2:cut:2], t[3:cut:2]))
+            dup_summary["final_map_sizes"] = " ".join(t[cut + 1:])
+    duplaws = [l for l in out.splitlines() if l.startswith("law ")]
+    if duplaws:
+        direct.append("dups")
+        t = duplaws[0].split(" ")
+        ctx.violation("dups:" + t[1], {"kind": "dups", "laws": duplaws[:10], "args": ["dups", dseed, ncases, ndmodel], "case": int(t[2])},
+                      what="struct built from an insertion sequence with duplicate keys is not the struct of its final key->value map: %s "
+                           "(re-run: pool dups %d %d %d, case %s)" % (duplaws[0], dseed, ncases, ndmodel, t[2]))
+    elif rc != 0 or dup_summary is None:
+        ctx.violation("dups-crash", {"kind": "crash", "rc": rc, "stderr": err.decode(errors="replace")[-2000:], "stdout": out[-600:]},
+                      what="duplicate-key scenario crashed (rc=%s)" % rc)
+    dup_model = 0
+    if exe and dcases:
+        lines, refs = [], []
+        for dc in dcases:
+            if dc["ref"] is None:
+                continue
+            body = "%d %s" % (len(dc["kvs"]), " ".join(dc["kvs"]))
+            lines.append("structofx %d %d %s" % (dc["replace"], dc["count"], body))
+            refs.append((dc, "structofx"))
+            if not dc["under"]:
+                # struct_by_final_map / struct_flatten_first_value_wins: same struct through the final key->value map
+                lines.append("finalmap %d %s" % (dc["replace"], body))
+                refs.append((dc, "finalmap"))
+        mo = ctx.model(lines, exe=exe)
+        dup_model = len(lines)
+        ddiffs = [{"op": "duplicate keys (%s)" % how, "replace": dc["replace"], "count": dc["count"], "under_announced": dc["under"],
+                   "insertion": " | ".join(dc["kvs"])[:600], "impl": dc["ref"][:500], "model": o[:500]}
+                  for (dc, how), o in zip(refs, mo) if dc["ref"] != o]
+        tot["model_lines"] += len(lines)
+        tot["model_diffs"] += len(ddiffs)
+        if ddiffs or len(mo) != len(lines):
+            diffs_all += ddiffs[:3]
+            broken.append("correspondence model/impl on duplicate-key scenario: %d differing slot arrays, first %r" % (len(ddiffs), ddiffs[:1]))
+            ctx.broken.append(broken[-1])
     # ------------------------------------------------------------------ verdict for broken obligations
     if broken and not direct and ctx.nviol == 0:
         ctx.violation("broken:" + broken[0][:80], {"kind": "broken-obligation", "broken": broken, "first_diffs": diffs_all[:5]}, found=False,
                       what="no longer shown to hold: " + "; ".join(broken)[:700])
     cov = {
-        "evaluations": tot["pairs"] + tot["triples"] + tot["vmcalls"] + tot["litforms"] + tot["model_lines"] + int((lay_summary or {}).get("builds", 0)),
+        "evaluations": tot["pairs"] + tot["triples"] + tot["vmcalls"] + tot["litforms"] + tot["model_lines"] + int((lay_summary or {}).get("builds", 0)) + int((dup_summary or {}).get("builds", 0)),
         "distinct_nontrivial": tot["classes"],
         "rule": "pool values = every recipe of every content (atoms: literal / constructor / parse / unmarshal / nb-bits; tuples and structs: see recipe histogram); "
                 "non-trivial = distinct content class (python canonical form of the serialised value); laws checked on ALL ordered pairs and ALL ordered triples of each pool; "
@@ -576,18 +655,24 @@ def run(ctx, scripts=None):
         "vm_literal_shape_forms": tot["litforms"], "vm_literals": pg.LITERALS,
         "abstract_types_with_compare_or_hash_hooks": [list(h) for h in hooked],
         "content_classes": tot["classes"], "content_classes_with_several_constructions": tot["multi_classes"],
-        "model_lines": tot["model_lines"], "model_diffs": tot["model_diffs"], "struct_layout_rebuilds": tot["layouts"],
+        "model_lines": tot["model_lines"], "model_diffs": tot["model_diffs"], "values_holding_nan_through_model": tot.get("nan_values_in_model", 0),
+        "string_loop_pairs_through_model": tot.get("string_loop_pairs", 0), "struct_layout_rebuilds": tot["layouts"],
         "symbols_checked_for_identity": tot["symbols"], "symcache": sym_summary,
         "struct_layout_scenario": lay_summary, "struct_layout_scenario_model_rebuilds": lay_model,
+        "duplicate_key_scenario": dup_summary, "duplicate_key_scenario_model_lines": dup_model,
         "recipe_histogram": dict(sorted(recipe_hist.items())), "type_histogram": type_hist, "struct_capacity_histogram": {str(k): v for k, v in sorted(cap_hist.items())},
         "broken": broken,
     }
     ctx.say("values %d pairs %d triples %d vmcalls %d classes %d (multi %d) model lines %d diffs %d layouts %d symcache %s" % (
         tot["values"], tot["pairs"], tot["triples"], tot["vmcalls"], tot["classes"], tot["multi_classes"], tot["model_lines"], tot["model_diffs"], tot["layouts"], sym_summary))
     ctx.say("layout scenario %s model rebuilds %d; literal-shape forms %d" % (lay_summary, lay_model, tot["litforms"]))
+    ctx.say("duplicate-key scenario %s model lines %d" % (dup_summary, dup_model))
     return ctx.finish("proof", cov, assumptions=[
-        "NaN excluded (property text); abstract types (int/s64, int/u64, ...) are outside the model and outside the property's list",
-        "numbers: model is parametric in an abstract lawful order (LawfulNum); executable instance = sign-magnitude reading of the 64-bit pattern, tied to the C's double == and < by correspondence",
+        "NaN is excluded from the laws (property text) but is part of the model type: laws proved on the NaN-free values of JVal F64, NaN keys refused by struct put (proved), "
+        "hash / compare / equals of values holding NaN compared with the implementation (equals only when at most one side holds NaN: the C's pointer short-cut is not modelled); "
+        "abstract types (int/s64, int/u64, ...) are outside the model and outside the property's list",
+        "numbers: general theorems are parametric in an abstract lawful order (LawfulNum) resp. an IEEE-like order with NaN (LawfulNaNNum); executable instance F64 = all 64-bit patterns, "
+        "sign-magnitude reading for the order, NaN unordered, `+= 0.0` quiets a signalling NaN; tied to the C's double == , < and += by correspondence",
         "symbols/keywords: model compares bytes; that interning makes pointer identity = byte equality is modelled separately (Value/SymCache) and tested directly",
         "janet_maphash `& (cap-1)` modelled as `% cap` (cap = janet_tablen(2*count) is a power of two; checked by the harness on every struct)",
         "64-bit NaN-boxed build without JANET_PRF (translator checks janetconf.h)"])
